@@ -106,8 +106,10 @@ func genView(rt *rapid.T, o viewOpts) *gossipbackend.ViewCase {
 			ov["SYNC_COMMITTEE_SIZE"] = 128
 		}
 	} else if many {
-		// 32 one-member committees per slot, 128 per epoch: committees_since_epoch_start + index passes 64
-		active = rapid.SampledFrom([]int{130, 136, 160}).Draw(rt, "active")
+		// 32 (or, below 128 active validators, 22…25) one-member committees per slot, more than 64 per epoch:
+		// committees_since_epoch_start + index passes 64; with a count per slot that does not divide 64 the
+		// committees of ONE slot straddle subnet 63 -> 0
+		active = rapid.SampledFrom([]int{130, 136, 160, 100, 96, 90}).Draw(rt, "active")
 		ov["TARGET_COMMITTEE_SIZE"], ov["MAX_COMMITTEES_PER_SLOT"] = 1, 32
 		ov["SYNC_COMMITTEE_SIZE"] = 16
 	} else {
@@ -510,6 +512,9 @@ func record(r *report.Run, c *Case, out *outcome) {
 	if c.View.Config.Override["MAX_COMMITTEES_PER_SLOT"]*c.View.Config.Override["SLOTS_PER_EPOCH"] > 64 && c.Msg.Topic == "attestation" {
 		r.Class("scenario:attestation-on-a-view-with->64-committees-per-epoch")
 	}
+	if out.straddle && kind == "honest" {
+		r.Hit("attestation:committees-of-one-slot-straddle-subnet-63/0")
+	}
 	if c.View.Anchored {
 		r.Class("receiver-view:checkpoint-synced")
 		if out.class == gossipmodel.MustIgnore && kind == "honest" {
@@ -622,7 +627,7 @@ func TestCheck(t *testing.T) {
 	for i := range Catalogue {
 		r.Mandatory("row:" + Catalogue[i].Target)
 	}
-	r.Mandatory("checkpoint-synced-receiver:honest-message-must-be-ignored")
+	r.Mandatory("checkpoint-synced-receiver:honest-message-must-be-ignored", "attestation:committees-of-one-slot-straddle-subnet-63/0")
 	// class tour: one directed view per fork (head in phase0 / altair / bellatrix / capella), spread over the shards
 	lim := 4
 	if r.S.NShards > lim {
